@@ -1,10 +1,13 @@
 """C19 Move, copy and import shortcuts never accept unverified data."""
-import arrayprop
+import arrayprop, directed
 
 
 def run(tier):
     return arrayprop.standard_run(
         "C19", tier, profiles=["c19", "c19", "copy"], nquick=36, nthorough=360, steps=(26, 36), sim=False,
+        directed_jobs=lambda s0: [(s0 + 1, dict(nd=2, np=1, copies=2), "directed-decoy-prehash", 0, directed.decoy_prehash),
+                                  (s0 + 2, dict(nd=2, np=2, copies=2), "directed-import-past", 0, directed.import_past_content),
+                                  (s0 + 3, dict(nd=2, np=2, copies=2), "directed-import-past", 0, directed.import_past_content)],
         shapes=[(3, 2), (2, 1), (2, 2), (4, 2), (3, 1), (2, 3)],
         rule="histories with true copies and decoys (same name, size and time stamp, other content) on other disks, moves within "
              "and across disks, zero and non-zero sub-second stamps (name-only matching), --force-nocopy, pre-hash (-h), fix with "
@@ -13,4 +16,4 @@ def run(tier):
              "mismatch stops before any parity write, search/import fetch only by matching hash) and evaluates on the real "
              "state that no block is recorded as synced with a hash that is not the hash of its data",
         assumptions=["disks scanned sequentially (--test-skip-multi-scan): with parallel scan threads the outcome of copy detection "
-                     "can depend on thread timing (finding F10, reported under C13)"])
+                     "can depend on thread timing (finding F11, noted for C13)"])
